@@ -1010,6 +1010,8 @@ class Interp:
             return not self.truth(v)
         if isinstance(v, Unknown):
             return Unknown(f"({type(e.op).__name__} {v.sym})")
+        if type(v).__name__ == "Lin":
+            return v.scale(-1) if isinstance(e.op, ast.USub) else v
         if isinstance(e.op, ast.USub):
             return -v
         if isinstance(e.op, ast.UAdd):
@@ -1835,7 +1837,7 @@ def _sym(a):
 
 
 def _opaque(v):
-    return isinstance(v, (Unknown, Obj, EnumVal, Func, ClassRef, ExtRef, ExcVal, BoundBuiltin, Iv))
+    return isinstance(v, (Unknown, Obj, EnumVal, Func, ClassRef, ExtRef, ExcVal, BoundBuiltin, Iv)) or type(v).__name__ == "Lin"
 
 
 def _boolish(x):
@@ -1909,3 +1911,214 @@ def cmp_outcome(decision, a_needle, b_needle):
             return rel
         return {"lt": "ge", "gt": "le"}[rel]
     return None
+
+
+# ======================================================================
+# Affine integer values (for the energy ledger): linear forms over entry
+# symbols, path facts `form >= 0`, bounded entailment (no solver: a goal is
+# accepted when it is a non-negative combination of at most three recorded
+# facts plus a non-negative constant).
+
+class Lin:
+    __slots__ = ("co", "c")
+
+    def __init__(self, co=None, c=0):
+        self.co = {k: v for k, v in (co or {}).items() if v != 0}
+        self.c = c
+
+    @staticmethod
+    def sym(name):
+        return Lin({name: 1}, 0)
+
+    @staticmethod
+    def of(x):
+        if isinstance(x, Lin):
+            return x
+        if isinstance(x, bool):
+            return Lin({}, int(x))
+        if isinstance(x, int):
+            return Lin({}, x)
+        return None
+
+    def is_const(self):
+        return not self.co
+
+    def add(self, o, sign=1):
+        co = dict(self.co)
+        for k, v in o.co.items():
+            co[k] = co.get(k, 0) + sign * v
+        return Lin(co, self.c + sign * o.c)
+
+    def scale(self, k):
+        return Lin({s: v * k for s, v in self.co.items()}, self.c * k)
+
+    def key(self):
+        return (tuple(sorted(self.co.items())), self.c)
+
+    def __repr__(self):
+        parts = []
+        for k, v in sorted(self.co.items()):
+            parts.append(("" if v == 1 else "-" if v == -1 else f"{v}*") + k)
+        if self.c or not parts:
+            parts.append(str(self.c))
+        return " + ".join(parts).replace("+ -", "- ")
+
+    def __eq__(self, o):
+        return isinstance(o, Lin) and self.key() == o.key()
+
+    def __hash__(self):
+        return hash(self.key())
+
+
+_ENT_CACHE = {}
+
+
+def entails(facts, goal, depth=3):
+    """facts: list[Lin] each meaning f >= 0.  Is goal >= 0 implied?  Depth-bounded search for a derivation
+    goal = sum(k_i * f_i) + c  with k_i in {1, 2}, at most `depth` facts and c >= 0: at each step only a fact that cancels
+    (part of) a symbol of the residual with the right sign is tried."""
+    if goal.is_const():
+        return goal.c >= 0
+    fk = tuple(sorted({f.key() for f in facts}))
+    ck = (fk, goal.key(), depth)
+    if ck in _ENT_CACHE:
+        return _ENT_CACHE[ck]
+    uniq = {}
+    for f in facts:
+        uniq.setdefault(f.key(), f)
+    fl = list(uniq.values())
+
+    def rec(res, d, start):
+        if res.is_const():
+            return res.c >= 0
+        if d == 0:
+            return False
+        syms = res.co
+        for i in range(start, len(fl)):
+            f = fl[i]
+            useful = False
+            for k, v in f.co.items():
+                rv = syms.get(k)
+                if rv is not None and (rv > 0) == (v > 0):
+                    useful = True
+                    break
+            if not useful:
+                continue
+            for m in (1, 2):
+                if rec(res.add(f.scale(m), -1), d - 1, 0):
+                    return True
+        return False
+    r = rec(goal, depth, 0)
+    if len(_ENT_CACHE) > 200000:
+        _ENT_CACHE.clear()
+    _ENT_CACHE[ck] = r
+    return r
+
+
+class LinInterp(Interp):
+    """Interp extended with Lin values and path facts"""
+
+    def __init__(self, *a, **kw):
+        super().__init__(*a, **kw)
+        self.facts = []          # Lin >= 0
+        self.div_checks = []     # (text, divisor Lin, provably nonzero?)
+
+    def assume(self, lin):
+        self.facts.append(lin)
+
+    def _decide(self, d, label):
+        """d: Lin.  Decide the sign class of d among  d >= 1 / d == 0 / d <= -1  (consistent with facts); returns 1, 0, -1"""
+        if d.is_const():
+            return (d.c > 0) - (d.c < 0)
+        opts = []
+        pos = d.add(Lin({}, 1), -1)          # d - 1 >= 0
+        neg = d.scale(-1).add(Lin({}, 1), -1)  # -d - 1 >= 0
+        can_pos = not entails(self.facts, d.scale(-1))          # not (d <= 0)
+        can_neg = not entails(self.facts, d)                    # not (d >= 0)
+        can_zero = not entails(self.facts, pos) and not entails(self.facts, neg)
+        if can_pos:
+            opts.append((1, [pos]))
+        if can_zero:
+            opts.append((0, [d, d.scale(-1)]))
+        if can_neg:
+            opts.append((-1, [neg]))
+        if not opts:
+            raise Imprecise(f"contradictory facts at {label}")
+        if len(opts) == 1:
+            sgn, fs = opts[0]
+        else:
+            i = self.o.choose(len(opts), f"sign({d!r}) at {label}", key=("lin", d.key()))
+            sgn, fs = opts[min(i, len(opts) - 1)]
+            self.decisions.append((label, sgn, repr(d), sgn))
+        for f in fs:
+            if not entails(self.facts, f):
+                self.facts.append(f)
+        return sgn
+
+    def binop(self, op, a, b):
+        la, lb = Lin.of(a), Lin.of(b)
+        if (isinstance(a, Lin) or isinstance(b, Lin)) and la is not None and lb is not None:
+            if isinstance(op, ast.Add):
+                return _lin_norm(la.add(lb))
+            if isinstance(op, ast.Sub):
+                return _lin_norm(la.add(lb, -1))
+            if isinstance(op, ast.Mult):
+                if la.is_const():
+                    return _lin_norm(lb.scale(la.c))
+                if lb.is_const():
+                    return _lin_norm(la.scale(lb.c))
+                return Unknown(f"({la!r} * {lb!r})")
+            if isinstance(op, (ast.Div, ast.FloorDiv, ast.Mod)):
+                sgn_known = entails(self.facts, lb.add(Lin({}, 1), -1)) or entails(self.facts, lb.scale(-1).add(Lin({}, 1), -1)) if not lb.is_const() else lb.c != 0
+                self.div_checks.append((f"{la!r} / {lb!r}", lb, bool(sgn_known)))
+                if not sgn_known:
+                    zero_possible = not entails(self.facts, lb.add(Lin({}, 1), -1)) and not entails(self.facts, lb.scale(-1).add(Lin({}, 1), -1))
+                    if zero_possible and entails(self.facts, lb) and entails(self.facts, lb.scale(-1)):
+                        raise PyRaise(ExcVal("ZeroDivisionError", (f"{la!r} / {lb!r} with divisor == 0 on this path",)))
+                    if zero_possible:
+                        s = self._decide(lb, f"divisor {lb!r}")
+                        if s == 0:
+                            raise PyRaise(ExcVal("ZeroDivisionError", (f"{la!r} / {lb!r}",)))
+                return Unknown(f"({la!r} {type(op).__name__} {lb!r})")
+        if isinstance(a, Lin) or isinstance(b, Lin):
+            return Unknown(f"({_sym(a) if not isinstance(a, Lin) else repr(a)} {type(op).__name__} {_sym(b) if not isinstance(b, Lin) else repr(b)})")
+        return super().binop(op, a, b)
+
+    def compare(self, op, a, b, label=""):
+        la, lb = Lin.of(a), Lin.of(b)
+        if (isinstance(a, Lin) or isinstance(b, Lin)) and la is not None and lb is not None and isinstance(op, (ast.Lt, ast.LtE, ast.Gt, ast.GtE, ast.Eq, ast.NotEq)):
+            d = la.add(lb, -1)
+            s = self._decide(d, label or "compare")
+            return {ast.Lt: s < 0, ast.LtE: s <= 0, ast.Gt: s > 0, ast.GtE: s >= 0, ast.Eq: s == 0, ast.NotEq: s != 0}[type(op)]
+        if isinstance(a, Lin) or isinstance(b, Lin):
+            if isinstance(op, (ast.Is, ast.IsNot)):
+                return isinstance(op, ast.IsNot)
+            return Unknown(f"({a!r} {type(op).__name__} {b!r})")
+        return super().compare(op, a, b, label)
+
+    def truth(self, v, label=""):
+        if isinstance(v, Lin):
+            return self._decide(v, label or "truth") != 0
+        return super().truth(v, label)
+
+    def _ext_call(self, name, args, kwargs):
+        if name in ("min", "max") and len(args) >= 2 and any(isinstance(x, Lin) for x in args) and all(Lin.of(x) is not None for x in args):
+            best = Lin.of(args[0])
+            for x in args[1:]:
+                lx = Lin.of(x)
+                s = self._decide(best.add(lx, -1), f"{name}({best!r}, {lx!r})")
+                if (name == "min" and s > 0) or (name == "max" and s < 0):
+                    best = lx
+            return _lin_norm(best)
+        if name == "int" and args and isinstance(args[0], Lin):
+            return args[0]
+        if name in ("abs",) and args and isinstance(args[0], Lin):
+            s = self._decide(args[0], "abs")
+            return args[0] if s >= 0 else _lin_norm(args[0].scale(-1))
+        if any(isinstance(x, Lin) for x in args) and name in ("str", "repr", "float", "round", "print"):
+            return None if name == "print" else Unknown(f"{name}({', '.join(repr(x) for x in args)})")
+        return super()._ext_call(name, args, kwargs)
+
+
+def _lin_norm(l):
+    return l.c if l.is_const() else l
